@@ -608,6 +608,7 @@ def run(ctx):
             continue
         m = fn.trait_method()
         role = ROLE_BY_METHOD.get(m)
+        props = PROPS_BY_FAMILY.get(fn.family, ['C13'])
         if role is None:
             # a search in a helper (or in a public method that has no role of its own) takes the role of the operations
             # that use it; a public method nobody with a role uses answers no question the properties ask
